@@ -6,9 +6,14 @@
 #include "mb_common.h"
 #include <sstream>
 
-enum CKind { K_ROD = 0, K_BALL, K_WELD, K_PIP, K_POL, K_CANGLE, K_CORI, K_NOSLIP, K_CCOORD, K_CSPEED, K_CACC, K_CCPL, K_SCPL, K_NKINDS };
+// K_NKINDS = first wave (also what C08 draws from); second wave: contact constraints and PrescribedMotion
+enum CKind { K_ROD = 0, K_BALL, K_WELD, K_PIP, K_POL, K_CANGLE, K_CORI, K_NOSLIP, K_CCOORD, K_CSPEED, K_CACC, K_CCPL, K_SCPL, K_NKINDS,
+             K_SOP = K_NKINDS, K_SOPR, K_SOS, K_SOSR, K_POP, K_LOL, K_LOLR, K_PRESC, K_NALL };
 static const char* CKNAMES[] = {"Rod", "Ball", "Weld", "PointInPlane", "PointOnLine", "ConstantAngle", "ConstantOrientation",
-    "NoSlip1D", "ConstantCoordinate", "ConstantSpeed", "ConstantAcceleration", "CoordinateCoupler", "SpeedCoupler"};
+    "NoSlip1D", "ConstantCoordinate", "ConstantSpeed", "ConstantAcceleration", "CoordinateCoupler", "SpeedCoupler",
+    "SphereOnPlaneContact", "SphereOnPlaneContact+rolling", "SphereOnSphereContact", "SphereOnSphereContact+rolling", "PointOnPlaneContact",
+    "LineOnLineContact", "LineOnLineContact+rolling", "PrescribedMotion"};
+inline bool isBodyKind(int k) { return k <= K_NOSLIP || (k >= K_SOP && k <= K_LOLR); }
 
 struct ConDesc {               // what was built, in the form the model needs
     int kind; std::vector<Real> par;      // flat parameters (layout documented in checks/C07.py)
@@ -66,6 +71,17 @@ struct ConSystem {
             Constraint::ConstantAngle c(A, ab, B, af, ang); d.cx = c.getConstraintIndex(); push3(d.par, Vec3(ab)); push3(d.par, Vec3(af)); d.par.push_back(std::cos(ang)); break; }
         case K_CORI: { Rotation r1 = r.rot(), r2 = r.rot();
             Constraint::ConstantOrientation c(A, r1, B, r2); d.cx = c.getConstraintIndex(); pushR(d.par, r1); pushR(d.par, r2); break; }
+        case K_SOP: case K_SOPR: { Transform X_FP = r.xf(0.5); Vec3 pO = r.v3(0.5); Real rad = r.U(0.15, 0.6);
+            Constraint::SphereOnPlaneContact c(A, X_FP, B, pO, rad, kind == K_SOPR); d.cx = c.getConstraintIndex();
+            pushR(d.par, X_FP.R()); push3(d.par, X_FP.p()); push3(d.par, pO); d.par.push_back(rad); break; }
+        case K_SOS: case K_SOSR: { Vec3 sF = r.v3(0.5), sB = r.v3(0.5); Real rf = r.U(0.15, 0.6), rb = r.U(0.15, 0.6);
+            Constraint::SphereOnSphereContact c(A, sF, rf, B, sB, rb, kind == K_SOSR); d.cx = c.getConstraintIndex();
+            push3(d.par, sF); push3(d.par, sB); d.par.push_back(rf); d.par.push_back(rb); break; }
+        case K_POP: { Transform X_FP = r.xf(0.5); Vec3 pQ = r.v3(0.5);
+            Constraint::PointOnPlaneContact c(A, X_FP, B, pQ); d.cx = c.getConstraintIndex();
+            pushR(d.par, X_FP.R()); push3(d.par, X_FP.p()); push3(d.par, pQ); break; }
+        case K_LOL: case K_LOLR: { Transform eF = r.xf(0.5), eB = r.xf(0.5); Real hf = r.U(0.3, 1), hb = r.U(0.3, 1);
+            Constraint::LineOnLineContact c(A, eF, hf, B, eB, hb, kind == K_LOLR); d.cx = c.getConstraintIndex(); break; }
         case K_NOSLIP: { int cs[4] = {0, 3, 2, a}; int cb = cs[r.I(0, 3)]; Vec3 P = r.v3(0.6); UnitVec3 n(r.v3() + Vec3(0.01, 0.02, 0.03));
             Constraint::NoSlip1D c(mob(cb), P, n, A, B); d.cx = c.getConstraintIndex(); push3(d.par, P); push3(d.par, Vec3(n));
             d.roles.push_back(cb); break; }
@@ -90,6 +106,9 @@ struct ConSystem {
             for (int i = 0; i < n; ++i) { int b = pick(); int q = r.I(0, NU[types[b - 1]] - 1); mb.push_back(MobilizedBodyIndex(b)); qi.push_back(MobilizerQIndex(q)); d.coords.push_back(std::make_pair(b, q)); }
             for (int i = 0; i <= n; ++i) { coef[i] = r.U(-2, 2); d.par.push_back(coef[i]); }
             Constraint::CoordinateCoupler c(matter, new Function::Linear(coef), mb, qi); d.cx = c.getConstraintIndex(); break; }
+        case K_PRESC: { int b = pick(); int qi = r.I(0, NU[types[b - 1]] - 1); Real a = r.U(0.2, 1), w = r.U(0.5, 2), ph = r.U(-1, 1);
+            Constraint::PrescribedMotion c(matter, new Function::Sinusoid(a, w, ph), MobilizedBodyIndex(b), MobilizerQIndex(qi)); d.cx = c.getConstraintIndex();
+            d.par.push_back(a); d.par.push_back(w); d.par.push_back(ph); d.coords.push_back(std::make_pair(b, qi)); break; }
         case K_SCPL: { int k = r.I(1, 3), l = r.I(0, 2); Array_<MobilizedBodyIndex> mb, qb; Array_<MobilizerUIndex> ui; Array_<MobilizerQIndex> qi; Vector coef(k + l + 1);
             for (int i = 0; i < k; ++i) { int b = pick(); int u = r.I(0, NU[types[b - 1]] - 1); mb.push_back(MobilizedBodyIndex(b)); ui.push_back(MobilizerUIndex(u)); d.coords.push_back(std::make_pair(b, u)); }
             for (int i = 0; i < l; ++i) { int b = pick(); int q = r.I(0, NU[types[b - 1]] - 1); qb.push_back(MobilizedBodyIndex(b)); qi.push_back(MobilizerQIndex(q)); d.coords.push_back(std::make_pair(b, q)); }
